@@ -271,6 +271,54 @@ func runC08Round(dir string, g *rand.Rand, creators, nplugins, perCreator, faili
 			}
 		}()
 	}
+	// every second round one more plugin speaks the protocol directly and answers Configure with an empty
+	// mask, which the protocol defines as "every event" (a stub never sends 0: it substitutes what it implements)
+	var raw *rig.RawPlugin
+	var rawMu sync.Mutex
+	var rawErr error
+	rawSnap, rawCreated, rawSyncs := map[string]int{}, map[string]int{}, 0
+	rawSynced := make(chan struct{})
+	var rawOnce sync.Once
+	if hashName(tag)%2 == 0 {
+		raw = rig.NewRawPlugin("raw", fmt.Sprintf("%02d", g.IntN(100)), 0)
+		raw.OnSynchronize = func(_ context.Context, req *api.SynchronizeRequest) (*api.SynchronizeResponse, error) {
+			rawMu.Lock()
+			for _, c := range req.Containers {
+				rawSnap[c.Id]++
+			}
+			if !req.More {
+				rawSyncs++
+			}
+			rawMu.Unlock()
+			if !req.More {
+				rawOnce.Do(func() { close(rawSynced) })
+			}
+			return &api.SynchronizeResponse{More: req.More}, nil
+		}
+		raw.OnCreate = func(_ context.Context, req *api.CreateContainerRequest) (*api.CreateContainerResponse, error) {
+			rawMu.Lock()
+			rawCreated[req.GetContainer().GetId()]++
+			rawMu.Unlock()
+			return &api.CreateContainerResponse{}, nil
+		}
+		rawDelay := time.Duration(g.IntN(perCreator*300)) * time.Microsecond
+		pwg.Add(1)
+		go func() {
+			defer pwg.Done()
+			time.Sleep(rawDelay)
+			err := raw.Dial(rt.Sock, nil)
+			if err == nil {
+				err = raw.Register(60 * time.Second)
+			}
+			if err != nil {
+				rawMu.Lock()
+				rawErr = err
+				rawMu.Unlock()
+				res.Note("%s: the raw plugin did not get registered: %v", tag, err)
+			}
+		}()
+		defer raw.Close()
+	}
 	cdone := make(chan struct{})
 	go func() { cwg.Wait(); pwg.Wait(); close(cdone) }()
 	if st := rig.Await(cdone, 30*time.Second, 120*time.Second); st == "hang" {
@@ -293,6 +341,20 @@ func runC08Round(dir string, g *rand.Rand, creators, nplugins, perCreator, faili
 		}
 		if st := rig.Await(cp.p.SyncedCh(), 5*time.Second, 60*time.Second); st == "hang" {
 			res.Violate("C08/registration-stuck", fmt.Sprintf("plugin %d was not synchronized although no sync block is held any more; goroutines:\n%s", cp.pos, nriStacks()), what)
+			return
+		} else if st == "slow" {
+			res.SlowOne()
+		}
+	}
+	rawMu.Lock()
+	rawFailed := rawErr != nil
+	rawMu.Unlock()
+	if raw != nil && rawFailed {
+		res.Inconcl()
+	}
+	if raw != nil && !rawFailed {
+		if st := rig.Await(rawSynced, 5*time.Second, 60*time.Second); st == "hang" {
+			res.Violate("C08/registration-stuck", "the plugin answering Configure with an empty mask was not synchronized although no sync block is held any more; goroutines:\n"+nriStacks(), what)
 			return
 		} else if st == "slow" {
 			res.SlowOne()
@@ -358,6 +420,31 @@ func runC08Round(dir string, g *rand.Rand, creators, nplugins, perCreator, faili
 		}
 		res.Seen(fmt.Sprintf("split|snap%d|events%d|big%v", bucket(nsnap), bucket(nev), big))
 		cp.mu.Unlock()
+	}
+	if raw != nil && !rawFailed {
+		rawMu.Lock()
+		if rawSyncs != 1 {
+			res.Violate("C08/sync-count", fmt.Sprintf("the plugin answering Configure with an empty mask was synchronized %d times", rawSyncs), what)
+		}
+		nsnap, nev := 0, 0
+		for _, c := range all {
+			s, e := rawSnap[c.Id], rawCreated[c.Id]
+			if s > 0 {
+				nsnap++
+			}
+			if e > 0 {
+				nev++
+			}
+			switch {
+			case s+e == 0:
+				res.Violate("C08/neither", fmt.Sprintf("the plugin answering Configure with an empty mask (= every event) learned of container %s neither through its snapshot nor through a creation request", c.Id), what)
+			case s+e > 1:
+				res.Violate("C08/both", fmt.Sprintf("the plugin answering Configure with an empty mask learned of container %s %d times (snapshot %d, creation requests %d)", c.Id, s+e, s, e), what)
+			}
+		}
+		rawMu.Unlock()
+		res.Seen(fmt.Sprintf("raw-empty-mask|snap%d|events%d|big%v", bucket(nsnap), bucket(nev), big))
+		res.Count("registrations_with_an_empty_configure_mask", 1)
 	}
 	// bounded progress (needs the sync.request hook): once a registration asks for the exclusive section it gets
 	// its turn when the blocks held at that moment are released — the lock lets no new block in. Counted in
@@ -541,7 +628,7 @@ func init() {
 	register(&Check{
 		ID: "C08", Level: "exploration", MinNontriv: 3,
 		Anchors: []string{"pkg/adaptation/adaptation.go"},
-		Rule:    "rounds with 1-8 creator goroutines (BlockPluginSync; add to store; CreateContainer; Unblock, sometimes twice) and 2-6 stub plugins registering at seeded moments while creation runs, hook yields of 0-2 ms at the three synchronisation points in every other round; offline exactly-once oracle over snapshot ids and creation ids against the runtime's own store incl. a fence creation, online monitor of blocks held vs synchronisations in progress (both directions), bounded completion of pending registrations; meanwhile two goroutines relay requests that need no sync block (one StartContainer, one rotating through the eleven other kinds besides CreateContainer, each with its own relay function) under the race detector; every fifth round with 100 (one round: 190) ballast containers of 50 KiB under one pod so that snapshots are split in two (three) messages, plugin 0 there losing its first connection inside the second snapshot message and registering again with the same stub; one scenario per child with a sync block taken before Start and held across a registration and a creation; bounded-progress monitor between the hooks sync.request and sync.exclusive (all-blocks-released moments while a registration waits; alarm above 200); distinct = distinct (snapshot size bucket, event count bucket) splits observed per registration",
+		Rule:    "rounds with 1-8 creator goroutines (BlockPluginSync; add to store; CreateContainer; Unblock, sometimes twice) and 2-6 stub plugins registering at seeded moments while creation runs, hook yields of 0-2 ms at the three synchronisation points in every other round; offline exactly-once oracle over snapshot ids and creation ids against the runtime's own store incl. a fence creation, online monitor of blocks held vs synchronisations in progress (both directions), bounded completion of pending registrations; every second round one more plugin that speaks the protocol directly and answers Configure with an empty mask (= every event) under the same exactly-once oracle; meanwhile two goroutines relay requests that need no sync block (one StartContainer, one rotating through the eleven other kinds besides CreateContainer, each with its own relay function) under the race detector; every fifth round with 100 (one round: 190) ballast containers of 50 KiB under one pod so that snapshots are split in two (three) messages, plugin 0 there losing its first connection inside the second snapshot message and registering again with the same stub; one scenario per child with a sync block taken before Start and held across a registration and a creation; bounded-progress monitor between the hooks sync.request and sync.exclusive (all-blocks-released moments while a registration waits; alarm above 200); distinct = distinct (snapshot size bucket, event count bucket) splits observed per registration",
 		Assumptions: []string{
 			"the runtime performs each creation together with its bookkeeping inside one plugin-sync block, as the documented contract requires",
 			"request/registration timeouts are set to 60 s so that a loaded machine cannot make a healthy plugin look dead",
